@@ -1,4 +1,4 @@
-\* C17 quick: 3 goroutines (map writer / entry user / maintenance) x <= 2 operations over 2 ids,
+\* C17 quick: 3 goroutines (map writer x<=2 ops / entry user x<=2 ops / maintenance x1 op) over 2 ids,
 \* every interleaving of critical-section steps
 SPECIFICATION Spec
 CONSTANTS
@@ -6,6 +6,7 @@ CONSTANTS
   Nobody = Nobody
   Ids = {"i1", "i2"}
   MaxOps = 2
+  MaxOpsOf <- LimitsQuick
   MaxVer = 1
   OpsOf <- RolesQuick
   InitKinds = {"live", "dead"}
